@@ -4,7 +4,7 @@
 cd /verif
 for d in seeded/*/; do
   id=$(basename $d); prop=${id%-*}
-  git -C /repo apply $d/patch.diff || { echo "$id APPLY-FAILED"; continue; }
+  git -C /repo apply /verif/$d/patch.diff 2>/dev/null || { echo "$id APPLY-FAILED"; continue; }
   res=""
   for c in $prop "$@"; do
     out=$(./check $c quick 2>&1); code=$?
